@@ -99,7 +99,7 @@ func runFailedCommitScenario(path string, seed int64, o fcOpts) (res fcResult) {
 		select {
 		case err := <-ch:
 			return err, true
-		case <-time.After(3 * time.Second):
+		case <-time.After(10 * time.Second): // generous: the machine may be loaded
 			_ = rtx.Rollback()
 			<-ch
 			return nil, false
